@@ -55,18 +55,24 @@ class PartialTreeShape:
     def width(self, height):
         return (self.n + (1 << height) - 1) >> height
 
-    def calc_hash(self, height, pos, leaves):
+    def calc_hash(self, height, pos, leaves, memo=None):
+        """memo: optional dict reused between calls on the same leaves (pure cache)."""
         if height == 0:
             return leaves[pos]
-        left = self.calc_hash(height - 1, pos * 2, leaves)
+        if memo is not None and (height, pos) in memo:
+            return memo[(height, pos)]
+        left = self.calc_hash(height - 1, pos * 2, leaves, memo)
         if pos * 2 + 1 < self.width(height - 1):
-            right = self.calc_hash(height - 1, pos * 2 + 1, leaves)
+            right = self.calc_hash(height - 1, pos * 2 + 1, leaves, memo)
         else:
             right = left
-        return dsha(left + right)
+        out = dsha(left + right)
+        if memo is not None:
+            memo[(height, pos)] = out
+        return out
 
 
-def build_partial(leaves, match):
+def build_partial(leaves, match, memo=None):
     """BIP37 'constructing a partial merkle tree object'.
     Returns (bits: list of 0/1, hashes: list of 32-byte internal-order hashes)."""
     n = len(leaves)
@@ -80,7 +86,7 @@ def build_partial(leaves, match):
         parent_of_match = 1 if any(match[lo:hi]) else 0
         bits.append(parent_of_match)
         if height == 0 or not parent_of_match:
-            hashes.append(t.calc_hash(height, pos, leaves))
+            hashes.append(t.calc_hash(height, pos, leaves, memo))
         else:
             walk(height - 1, pos * 2)
             if pos * 2 + 1 < t.width(height - 1):
@@ -424,9 +430,11 @@ def selftest():
     for n in range(1, 9):
         ls = [dsha(bytes([i, n, 7])) for i in range(n)]
         root = merkle_root(ls)
+        memo = {}
         for m in range(1 << n):
             match = [(m >> i) & 1 for i in range(n)]
             bits, hs = build_partial(ls, match)
+            assert build_partial(ls, match, memo) == (bits, hs)
             r = extract_matches(n, hs, pack_bits(bits))
             assert r is not None and r[0] == root
             assert [x[0] for x in r[1]] == [ls[i] for i in range(n) if match[i]]
